@@ -56,7 +56,12 @@ func c13Profiles(tier string) []Profile {
 		ns, ds = 6, 2
 	}
 	shapes := shapesProfile("shapes", ns, ds, mon, p4.Finish)
+	fd := 4
+	if tier == "thorough" {
+		fd = 5
+	}
 	return []Profile{
+		foldCmpProfile(fd),
 		faulted,
 		shapes.Profile(shapesRule(ns, ds) + "; same oracles as profile four at every end state"),
 		p4.Profile(fmt.Sprintf("every history of length <= %d over Set(k,p) for 4 keys x priorities 1..4 (every insertion order, every priority ranking and tie pattern), Delete, Flush, Evict (every random branch), Reopen; at every end state the side-effect-free walk of the cached tree gives: in-order keys strictly ascending, every node's numNodes/numBytes equal to the recomputed subtree values, (while no key was overwritten with a lower priority) no child outranks its parent and, with pairwise distinct priorities, every key's depth equals its depth in the reference treap of the current (key, priority) set; the same order and aggregate checks on every node record of every flushed tree via the independent decoder", d4)),
